@@ -246,3 +246,108 @@ def scan_all(modules):
         for c in set_consumers(mi.tree, frozenset(funcs)):
             res.append((mod,) + c)
     return res, funcs
+
+
+# ---- rename-tolerant containment for the structural (K3) obligations --------------------------------------------------
+import builtins as _builtins
+
+
+class Src(str):
+    """the source text of a function (ast.unparse) whose `in` test is structural: a needle that parses as Python matches
+    when some statement sequence / expression of the function has the same shape, with LOCAL VARIABLE NAMES bound
+    consistently instead of compared literally (so renaming a local, or a parameter other than self, changes nothing);
+    attribute names, called globals, constants and operators are compared literally.  A needle that does not parse (a
+    fragment such as "except X as e:") falls back to plain text containment."""
+    node = None
+
+    def __new__(cls, text, node=None):
+        o = super().__new__(cls, text)
+        o.node = node
+        return o
+
+    def __contains__(self, needle):
+        if str.__contains__(self, needle):
+            return True
+        if self.node is None:
+            return False
+        try:
+            pat = ast.parse(_dedent(needle))
+        except SyntaxError:
+            return False
+        if not pat.body:
+            return False
+        if len(pat.body) == 1 and isinstance(pat.body[0], ast.Expr):
+            want = pat.body[0].value
+            if isinstance(want, (ast.Name, ast.Constant)) or sum(1 for _ in ast.walk(want)) < 4:
+                return False            # a bare word is a text search, not a shape
+            return any(_match(want, n, {}) for n in ast.walk(self.node) if isinstance(n, ast.expr))
+        stmts = pat.body
+        for n in ast.walk(self.node):
+            for fld in ("body", "orelse", "finalbody"):
+                seq = getattr(n, fld, None)
+                if isinstance(seq, list) and len(seq) >= len(stmts):
+                    for i in range(len(seq) - len(stmts) + 1):
+                        env = {}
+                        if all(_match(p_, c_, env) for p_, c_ in zip(stmts, seq[i:i + len(stmts)])):
+                            return True
+        return False
+
+    def count(self, needle, *a):
+        return str.count(self, needle, *a)
+
+
+def _dedent(text):
+    import textwrap
+    return textwrap.dedent(text.strip("\n"))
+
+
+def _is_variable(name):
+    """pattern names that stand for a local variable: lower-case identifiers that are neither builtins nor `self`/`cls`"""
+    return name not in ("self", "cls") and not hasattr(_builtins, name) and name == name.lower() and not name.startswith("__")
+
+
+def _match(p, c, env):
+    if isinstance(p, ast.Name) and isinstance(c, ast.Name):
+        if _is_variable(p.id):
+            if p.id in env:
+                return env[p.id] == c.id
+            if c.id in env.values() or not _is_variable(c.id) and c.id != p.id:
+                return False
+            env[p.id] = c.id
+            return True
+        return p.id == c.id
+    if type(p) is not type(c):
+        return False
+    if isinstance(p, ast.arg):
+        return _match(ast.Name(id=p.arg), ast.Name(id=c.arg), env)
+    if isinstance(p, ast.ExceptHandler):
+        if (p.name is None) != (c.name is None):
+            return False
+        if p.name is not None and not _match(ast.Name(id=p.name), ast.Name(id=c.name), env):
+            return False
+    for fld, pv in ast.iter_fields(p):
+        if fld in ("ctx", "lineno", "col_offset", "end_lineno", "end_col_offset", "type_comment", "kind"):
+            continue
+        if isinstance(p, ast.ExceptHandler) and fld == "name":
+            continue
+        cv = getattr(c, fld, None)
+        if isinstance(pv, list):
+            if not isinstance(cv, list) or len(pv) != len(cv):
+                return False
+            for a, b in zip(pv, cv):
+                if isinstance(a, ast.AST):
+                    if not _match(a, b, env):
+                        return False
+                elif a != b:
+                    return False
+        elif isinstance(pv, ast.AST):
+            if not isinstance(cv, ast.AST) or not _match(pv, cv, env):
+                return False
+        elif pv != cv:
+            return False
+    return True
+
+
+def unparse(node):
+    """ast.unparse with rename-tolerant `in` (see Src)"""
+    return Src(ast.unparse(node), node)
